@@ -34,7 +34,7 @@ RULE = ('one evaluation = one simulated run of a sampled workload (victim proces
 ASSUMPTIONS = ['in-process kill: after the kill instant no task of the victim has any further effect and its descriptors are closed '
                '(what the OS does for SIGKILL); power loss is not modelled',
                'real-kill mode: single victim, kill instant derived from the seed (seam step or progress-handler tick)']
-PROBES = ('kill', 'kill_mid_file_write', 'kill_torn_chunk', 'kill_in_txn', 'kill_between_commit_and_unlink', 'realkill',
+PROBES = ('kill_mid_file_write', 'kill_torn_chunk', 'kill_in_txn', 'kill_between_commit_and_unlink', 'realkill',
           'debris_unknown_file', 'bulk_partial')
 TECHNIQUE = 'deterministic simulation with crash injection: kill point enumerated over all seam events of sampled workloads; post-crash state checked by linearizability with the interrupted operation pending'
 LEVEL_TEXT = ('fault enumeration: workloads are sampled by seed, but within a workload every kill point at seam granularity is run '
